@@ -51,7 +51,7 @@ class _FirstCause:
             self.known = True
             self.cls = cls
             # the calls that are waiting on the connection when the first cause strikes
-            self.waiters = [t for k, t, _ in self.s.tasks if k in ("finish", "request") and not t.done()]
+            self.waiters = [t for k, t, i in self.s.tasks if k in ("finish", "request") and i.get("started") and not t.done()]
 
     def before_chunk(self, evs) -> None:
         if NOISE:
@@ -105,7 +105,9 @@ def _run(events: list) -> bool:
                 return track.fail(f"deadlock: {pend} pending, nothing ready and no timer armed; trace={s.trace}")
             return track.fail(f"{pend} still pending after the step budget; trace={s.trace}")
         for kind, t, info in s.tasks:
-            dur = info.get("t_end", s.loop.time()) - info["t_start"]
+            if "t_end" not in info:
+                continue  # cancelled before its coroutine ever ran: nothing was awaited
+            dur = info["t_end"] - info["t_start"]
             if dur > BOUND[kind]:
                 return track.fail(f"{kind} took {dur}s of virtual time, documented bound {BOUND[kind]}s; trace={s.trace}")
             if t.cancelled():
